@@ -1,10 +1,11 @@
 SPECIFICATION Spec
 CONSTANTS
   Users = {"a", "b", "c"}
-  Contracts = {"x", "y", "s"}
+  Contracts = {"x", "y", "s", "e"}
   Hangers = {"z"}
   Ghosts = {"g"}
   SyncContracts = {"s"}
+  EEContracts = {"e"}
   Keys = {"k1", "k2"}
   Prices = {0, 1, 2}
   DefaultCost = 2
@@ -20,6 +21,7 @@ CONSTANTS
   FundVals = {3}
   MCFrom = {"a", "b"}
   MCBals = {0, 3, 9}
+  MCShift = 0
   MCCBals = {0, 2}
   MCValues = {0, 1}
   MCExtras = {0, 2, 5}
